@@ -78,7 +78,7 @@ def main(ck, tier, w):
     for rp in res.replay:
         groups.setdefault((rp['b'], rp['k']), []).append(rp['ops'])
     flen = 10 if quick else 12
-    ck.cov['exhaustive'] = True
+    ck.cov['exhaustive'] = quick
     ck.cov['rule'] = ('all sequences of %d calls (seek 0..len, read 1..6, reopen) x capacity {2..5} x key length {1,2,3,5} '
                       'replayed on the real reader at model scale and x8192; non-trivial = sequence containing a backward '
                       'seek or a read crossing a buffer refill') % (3 if quick else 4)
@@ -87,11 +87,13 @@ def main(ck, tier, w):
         (b, k), seqs = item
         rng = random.Random('%d-%d-%d' % (seed, b, k))
         key = rng.randbytes(k)
-        out = driver_batch(w, flen, b, key, seqs, 1, rng)
+        # quick: every sequence of the model; thorough: the model has millions, a seeded sample of 25 000 per geometry is replayed
+        base = seqs if len(seqs) <= 25000 else rng.sample(seqs, 25000)
+        out = driver_batch(w, flen, b, key, base, 1, rng)
         sub = rng.sample(seqs, min(len(seqs), 300 if quick else 5000))
         out += driver_batch(w, flen, b, rng.randbytes(rng.choice([1, 8, 8, 13, 64])), sub, 8192, rng)
         out += driver_batch(w, flen, b, bytes(8), sub[:100], 8192, rng)
-        return (b, k), len(seqs) + len(sub) + min(len(sub), 100), out
+        return (b, k), len(base) + len(sub) + min(len(sub), 100), out
     for (b, k), n, probs in chains.pmap(one, sorted(groups.items()), 8):
         ck.evals(n)
         ck.traces(n)
